@@ -5,6 +5,7 @@ pub mod crash;
 pub mod fault;
 pub mod history;
 pub mod logfmt;
+pub mod tablefmt;
 
 use crate::runner::*;
 use serde_json::Value;
@@ -13,7 +14,7 @@ pub const HISTORY_IDS: &[&str] = &["C01", "C03", "C04", "C07", "C09", "C10", "C1
 
 pub fn all_ids() -> Vec<&'static str> {
     let mut v: Vec<&'static str> = HISTORY_IDS.to_vec();
-    v.extend(["C02", "C16", "C12", "C08", "C15"]);
+    v.extend(["C02", "C16", "C12", "C08", "C15", "C13", "C14"]);
     v.sort();
     v
 }
@@ -66,6 +67,18 @@ pub fn meta(id: &str) -> Option<CheckMeta> {
                 "a panic or failed open counts as detection (the damage was not served as data)".into(),
             ],
         }),
+        "C13" => Some(CheckMeta {
+            id: "C13",
+            level: "exploration",
+            rule: "a case is a sorted run of internal entries (1-100 user keys from the special-shape key pool: empty, one byte, 0xff runs, shared prefixes, 300-byte key; 1-5 versions each with descending sequence numbers, puts and deletes, values 0-300 B and a few ~5 kB), a max_block_size from {1,16,64,256,700,4096,1Mi}, Bloom or exact-set filter policy, and a cursor walk; the table is built with the crate's TableBuilder and read with Table/TwoLevelIterator (verif wrappers): data blocks hold exactly the input, forward and backward iteration reproduce it, seek(t) for every entry, (key, seq+-1), sequence bounds above/below all versions, key+0x00, before-first and after-last lands on the first entry >= t, get(user key, bound) answers value/deleted/not-in-this-file exactly, and the walk matches a cursor over the entry list. Non-trivial = >=2 data blocks with one user key's versions straddling a block boundary, or a non-shortenable last key; distinct by case hash".into(),
+            assumptions: vec!["TableBuilder/Table are reached through thin wrappers in src/verif.rs; MemFs returns full reads".into()],
+        }),
+        "C14" => Some(CheckMeta {
+            id: "C14",
+            level: "exploration",
+            rule: "(a) policy level through the public FilterPolicy API: exhaustive family key lengths 0-9 x bits_per_key 1-64 plus generated key sets (0-3000 keys, duplicates, empty key, arbitrary bytes, all lengths mod 4), every member must answer may-match=true; (b) table level: tables as in C13 (block sizes 1-1Mi so that several data blocks share one 2 KiB filter range and 5 kB values make one block span several), with the Bloom policy and with a harness-supplied exact-set policy (exact membership, so a builder/reader disagreement about which filter covers a block is a deterministic false negative): for every data block offset and every user key stored in that block the filter block must answer may-match, and get of every stored (key, seq) must not be 'not in this file'. Non-trivial = table with >=3 filter ranges where one filter covers >=2 blocks or an empty filter lies between blocks (policy cases: non-empty key set); distinct by case hash".into(),
+            assumptions: vec!["the exact-set policy is part of the harness; the filter block builder/reader are raindb's".into()],
+        }),
         "C12" => Some(CheckMeta {
             id: "C12",
             level: "exploration",
@@ -86,6 +99,7 @@ pub fn worker(ctx: &WorkerCtx) -> WorkerResult {
         "C12" => return logfmt::worker(ctx),
         "C08" => return fault::worker(ctx),
         "C15" => return corrupt::worker(ctx),
+        "C13" | "C14" => return tablefmt::worker(ctx),
         _ => {}
     }
     panic!("unknown check {}", ctx.id);
@@ -99,6 +113,7 @@ pub fn replay_value(v: &Value) -> Result<(), String> {
         "logfmt" => logfmt::replay(v),
         "faultpoint" => fault::replay(v),
         "corruptpoint" => corrupt::replay(v),
+        "tablefmt" | "filterpolicy" => tablefmt::replay(v),
         other => Err(format!("unknown replay engine {other:?}")),
     }
 }
